@@ -25,12 +25,16 @@ theorem fold_range {α : ℝ} (h0 : 0 < α) (h1 : α < 1) : 0 < fold α ∧ fold
   · constructor <;> linarith
 
 /-- `Normal(1 − α) = −Normal(α)` for α ≠ ½ -/
-theorem normal_antisym (fuel : ℕ) {α : ℝ} (h : α ≠ 1 / 2) : normal fuel (1 - α) = - normal fuel α := by
-  unfold normal
+theorem normalWith_antisym (d : Bool) (fuel : ℕ) {α : ℝ} (h : α ≠ 1 / 2) :
+    normalWith d fuel (1 - α) = - normalWith d fuel α := by
+  unfold normalWith
   simp only [fold_symm h, half_real]
   rcases lt_or_gt_of_ne h with h1 | h1
   · rw [if_pos (by linarith), if_neg (by linarith)]
   · rw [if_neg (by linarith), if_pos h1]; ring
+
+theorem normal_antisym (fuel : ℕ) {α : ℝ} (h : α ≠ 1 / 2) : normal fuel (1 - α) = - normal fuel α :=
+  normalWith_antisym _ fuel h
 
 theorem beq_half (p q : ℝ) : Scalar.beq p q = decide (p = q) := by
   simp [Scalar.beq]
@@ -109,6 +113,13 @@ theorem normalDistribution_density_pos (fuel : ℕ) (x : ℝ) : 0 < (normalDistr
   unfold normalDistribution
   simp only []
   split_ifs <;> first | exact hf0 | exact mul_pos hf0 (Real.exp_pos _)
+
+/-- the density `Normal` divides by is positive in both variants -/
+theorem normalTail_density_pos (d : Bool) (fuel : ℕ) (z : ℝ) : 0 < (normalTail d fuel z).2 := by
+  unfold normalTail
+  cases d
+  · exact normalDistribution_density_pos fuel z
+  · exact normalDistribution_density_pos fuel (-z)
 
 theorem normalZ0_real (a : ℝ) : normalZ0 a = Real.sqrt (-2 * Real.log a) := by
   unfold normalZ0; simp
